@@ -9,6 +9,7 @@ package nsqadmin
 // process, which the parent reports with the case that was running.
 
 import (
+	"encoding/base64"
 	"net/url"
 	"encoding/json"
 	"fmt"
@@ -481,6 +482,7 @@ func RunACL(spec ACLSpec) vx.Out {
 		cfgHeader = spec.Header
 	}
 	hdr := map[string]string{}
+	reqPath := path
 	if spec.Identity != "" {
 		name := cfgHeader
 		if spec.SendAs != "" {
@@ -490,10 +492,28 @@ func RunACL(spec ACLSpec) vx.Out {
 		if v == "<empty>" {
 			v = ""
 		}
-		hdr[name] = v
+		switch name {
+		case "Authorization-Basic":
+			// the identity claimed as the user name of HTTP basic auth (no ACL header at all)
+			hdr["Authorization"] = "Basic " + base64.StdEncoding.EncodeToString([]byte(v+":secret"))
+		case "Authorization-Basic+empty":
+			// ... with the ACL header present but empty
+			hdr["Authorization"] = "Basic " + base64.StdEncoding.EncodeToString([]byte(v+":secret"))
+			hdr[cfgHeader] = ""
+		case "Cookie":
+			hdr["Cookie"] = cfgHeader + "=" + v
+		case "Query":
+			sep := "?"
+			if strings.Contains(reqPath, "?") {
+				sep = "&"
+			}
+			reqPath += sep + url.QueryEscape(cfgHeader) + "=" + url.QueryEscape(v) + "&user=" + url.QueryEscape(v)
+		default:
+			hdr[name] = v
+		}
 	}
 	s.log.take()
-	code, body := doReq(h, method, path, spec.Body, hdr, "")
+	code, body := doReq(h, method, reqPath, spec.Body, hdr, "")
 	reqs := s.log.take()
 	mutating := method == "POST" || method == "DELETE"
 	isAdmin := len(spec.AdminUsers) == 0
